@@ -1532,30 +1532,66 @@ func (w *world) malformedStream(dir string, scale int, regs []*regCtx) error {
 				true, "pre:scrape-body-garbage", fmt.Sprintf("class:%d", cls), nameModeTags[mode])
 		}
 	}
-	// scraping a real promhttp handler (legacy names only: the handler escapes other names)
-	for _, c := range regs {
+	// scraping real promhttp targets (legacy names only: the handler escapes other names): OpenMetrics
+	// negotiation enabled or not, compression offered or not.  The target exposes the registry, so the
+	// verdict must be the one for the registry's content whatever the handler is able to negotiate; the
+	// driver's own plain GET is only used to make sure the target serves that content at all.
+	type target struct {
+		opts promhttp.HandlerOpts
+		tag  string
+	}
+	targets := []target{
+		{promhttp.HandlerOpts{}, "default"},
+		{promhttp.HandlerOpts{EnableOpenMetrics: true}, "openmetrics"},
+		{promhttp.HandlerOpts{DisableCompression: true}, "no-compression"},
+		{promhttp.HandlerOpts{EnableOpenMetrics: true, DisableCompression: true}, "openmetrics+no-compression"},
+		{promhttp.HandlerOpts{EnableOpenMetrics: true, EnableOpenMetricsTextCreatedSamples: true}, "openmetrics+created"},
+	}
+	for ci, c := range regs {
 		if c.rs.utf8 {
 			continue
 		}
-		w.srv.h = promhttp.HandlerFor(c.reg, promhttp.HandlerOpts{})
-		resp, err := http.Get(w.srv.srv.URL)
-		if err != nil {
-			return err
+		hasCounter := "no-counter"
+		for _, f := range c.rs.fams {
+			if f.typ == tCounter {
+				hasCounter = "has-counter"
+			}
 		}
-		var bb bytes.Buffer
-		bb.ReadFrom(resp.Body)
-		resp.Body.Close()
-		nb, bok := parseNorm(bb.String())
-		if !bok {
-			w.direct = append(w.direct, map[string]interface{}{"index": out.Len(), "what": "promhttp body does not parse"})
-			continue
-		}
-		for mode := 0; mode < 2; mode++ {
-			names := namesFor(mode, c.names, "", r)
-			cls := classify(testutil.ScrapeAndCompare(w.srv.srv.URL, strings.NewReader(c.text0), names...))
-			changed := projAll(nb, names) != projAll(c.norm0, names)
-			out.Add(emit.Tup("0", "3", emit.I(pIdentity), namesTerm(names), emit.Tup("0", "0", "0", "200"), emit.Some(tableOf(nb, r, true)), c.bodyTab, "()", emit.B(changed), emit.I(cls)),
-				true, "scrape:promhttp-handler", fmt.Sprintf("class:%d", cls), nameModeTags[mode])
+		ps := sample(r, allPerturbations(c.text0, c.names), 2*nKinds)
+		for ti, tg := range targets {
+			w.srv.h = promhttp.HandlerFor(c.reg, tg.opts)
+			resp, err := http.Get(w.srv.srv.URL)
+			if err != nil {
+				return err
+			}
+			var bb bytes.Buffer
+			bb.ReadFrom(resp.Body)
+			resp.Body.Close()
+			nb, bok := parseNorm(bb.String())
+			if !bok || projAll(nb, nil) != projAll(c.norm0, nil) {
+				w.direct = append(w.direct, map[string]interface{}{"index": out.Len(), "what": "promhttp target does not serve the registry's content: " + tg.tag})
+				continue
+			}
+			run := func(p perturb, mode int) {
+				names := namesFor(mode, c.names, p.fam, r)
+				normP, pok := parseNorm(p.text)
+				changed := true
+				ep := emit.None()
+				if pok {
+					changed = projAll(c.norm0, names) != projAll(normP, names)
+					ep = emit.Some(tableOf(normP, r, true))
+				}
+				cls := classify(testutil.ScrapeAndCompare(w.srv.srv.URL, strings.NewReader(p.text), names...))
+				out.Add(emit.Tup("0", "3", emit.I(p.kind), namesTerm(names), emit.Tup("0", "0", "0", "200"), c.bodyTab, ep, "()", emit.B(changed), emit.I(cls)),
+					true, "scrape:promhttp-"+tg.tag, "scrape:"+hasCounter, "kind:"+kindNames[p.kind], fmt.Sprintf("class:%d", cls), nameModeTags[mode])
+			}
+			for mode := 0; mode < 2; mode++ {
+				run(perturb{pIdentity, c.names[0], c.text0}, mode)
+			}
+			// a rotating slice of the perturbations of the own exposition: equal iff equal
+			for k := 0; k < 8 && len(ps) > 0; k++ {
+				run(ps[(ci+ti*8+k)%len(ps)], []int{0, 1, 2}[k%3])
+			}
 		}
 		w.srv.h = nil
 	}
